@@ -367,6 +367,15 @@ func c14Oracle(rep *Report, c c14case, op []int64, obs []int64) {
 		if len(ret) != 2 || ret[0] != 101 || ret[1] != lcls {
 			fail("refusal-status", "status is not the one chosen by the configured limit-exceeded classifier")
 		}
+		n5 := 0
+		for _, e := range evs {
+			if e.k == 5 {
+				n5++
+			}
+		}
+		if lcls != 0 && n5 != 1 {
+			fail("limit-classifier-count", fmt.Sprintf("the configured limit-exceeded classifier was consulted %d times for this refusal (it decides the answer for each request)", n5))
+		}
 	}
 }
 
